@@ -7,7 +7,7 @@ from ..impl_dwt import IMPL
 
 PROP = 'C02'
 MODULE = 'WaveletsVerif.Properties.C02'
-THEOREMS = ['WV.C02.pr_two_tap_zero', 'WV.C02.unpad_length', 'WV.C02.idwt_length_zero', 'WV.C01.afb1dOne_zero_eq_dwt', 'WV.C10.sfb1dCh_eq_idwt']
+THEOREMS = ['WV.C02.pr_zero', 'WV.C02.pr_zero_length', 'WV.C02.pr_two_tap_zero', 'WV.C02.unpad_length', 'WV.C02.idwt_length_zero', 'WV.C01.afb1dOne_zero_eq_dwt', 'WV.C10.sfb1dCh_eq_idwt']
 KF = 'C02-periodization-short'
 OPS = ['afb1d', 'sfb1d', 'DWT1DForward', 'DWT1DInverse', 'DWTForward', 'DWTInverse']
 
@@ -105,12 +105,34 @@ def oracle_pr2(ck, m, J, ncol, nrow, x):
     return None
 
 
+def prbank_defect(w):
+    """largest violation of the polyphase biorthogonality conditions (the hypothesis `PRBank` of the Lean theorem
+    WV.C02.pr_zero) by a PyWavelets filter bank"""
+    h0, h1, g0, g1 = [np.array(v, dtype=np.float64) for v in w.filter_bank]
+    L = len(h0)
+    gz = lambda g, i: g[i] if 0 <= i < L else 0.0
+    worst = 0.0
+    for p in (0, 1):
+        for d in range(-(L - 1), L):
+            v = sum(h0[a] * gz(g0, d + L - 1 - a) + h1[a] * gz(g1, d + L - 1 - a) for a in range(p, L, 2))
+            worst = max(worst, abs(v - (1.0 if d == 0 else 0.0)))
+    return worst
+
+
 def oracle(ck, extended):
     rng = ck.rng
     import pywt
     q = ck.tier == 'quick'
     # deterministic witness of the recorded finding
     rt.guard(ck, oracle_pr, ck, 1, 2, 1, 'db3', np.array([[[1., -2., 3., 0.5]]]))
+    # the hypothesis of the general PR theorem, measured on every PyWavelets bank
+    names = pywt.wavelist(kind='discrete')
+    defects = {n: prbank_defect(pywt.Wavelet(n)) for n in names}
+    ck.extra['prbank_defect'] = {'max_over_exact_wavelets': max(v for n, v in defects.items() if n != 'dmey'), 'dmey': defects.get('dmey'),
+                                 'note': 'largest violation of the polyphase biorthogonality conditions (hypothesis PRBank of WV.C02.pr_zero); dmey is only approximately PR'}
+    for n, v in defects.items():
+        if n != 'dmey' and v > 1e-9:
+            ck.fail('wavelet %s violates the biorthogonality conditions by %.3g' % (n, v), {'oracle': 'prbank', 'name': n})
     names = pywt.wavelist(kind='discrete')
     n = (140 if q else 1500) * (3 if extended else 1)
     for it in range(n):
